@@ -474,6 +474,38 @@ impl Prop for C16 {
                         ctx.violation("free-function-query", &[], "valve_master_server::query over two pages", clip(&format!("{}; seeds {seeds:?}", x.outcome.describe_json()), 400), clip(&format!("{expected:?}; seeds 0.0.0.0:0 then the last address of page 1"), 400), render_log(&x.log));
                     }
                 }
+                // one ValveMasterServer object, two complete queries (different regions and filters): the second starts from
+                // 0.0.0.0:0 again, carries its own region and filter, and returns its own list
+                {
+                    let pages = vec![vec![entry(1), entry(2)], vec![entry(3), TERMINATOR], vec![entry(4), TERMINATOR]];
+                    let x = run_query(Box::new(MasterServer::new(pages)), Box::new(Faithful), Chooser::new(&[]), || {
+                        let mut m = ValveMasterServer::new(&addr())?;
+                        let a = m.query(Region::Europe, Some(SearchFilters::default().insert(Filter::RunsAppID(440))))?;
+                        let b = m.query(Region::Asia, Some(SearchFilters::default().insert(Filter::RunsMap("de_dust2".to_string()))))?;
+                        Ok((a, b))
+                    });
+                    ctx.account(&x, 0);
+                    let to = |es: &[Entry]| -> Vec<(IpAddr, u16)> { es.iter().map(|e| (IpAddr::V4(e.0), e.1)).collect() };
+                    let sends = all_sends(&x.log);
+                    let reqs: Vec<Option<MasterRequest>> = sends.iter().map(|(_, r, _)| parse_request(r).ok()).collect();
+                    let want: Vec<(u8, String, &[u8])> = vec![
+                        (0x03, "0.0.0.0:0".into(), b"\\appid\\440"),
+                        (0x03, format!("{}:{}", entry(2).0, entry(2).1), b"\\appid\\440"),
+                        (0x04, "0.0.0.0:0".into(), b"\\map\\de_dust2"),
+                    ];
+                    let reqs_ok = reqs.len() == want.len() && reqs.iter().zip(&want).all(|(r, w)| matches!(r, Some(r) if r.region == w.0 && r.seed == w.1 && r.filter == w.2));
+                    let ok = matches!(&x.outcome, Outcome::Ok((a, b)) if *a == to(&[entry(1), entry(2), entry(3)]) && *b == to(&[entry(4)])) && reqs_ok;
+                    if !ok {
+                        ctx.violation(
+                            "second-query-with-the-same-object",
+                            &[],
+                            "two complete queries made with one ValveMasterServer object",
+                            clip(&format!("{}; requests {reqs:?}", x.outcome.describe_json()), 600),
+                            "([e1, e2, e3], [e4]); requests (region 03, seed 0.0.0.0:0, \\appid\\440), (03, e2, same filter), (04, 0.0.0.0:0, \\map\\de_dust2)".to_string(),
+                            render_log(&x.log),
+                        );
+                    }
+                }
                 ctx.sample(serde_json::json!({"case": label}));
             }
             What::Paging { pages } => {
